@@ -569,6 +569,7 @@ pub fn exec(w: &mut World, op: &Op, env: &mut Env) {
         "d" => crate::exec_float::exec_f::<mode::HalfAway, 10>(w, op, rest, env),
         "fd" => crate::exec_float::exec_fd(w, op, rest, env),
         "med" => crate::exec_medium::exec_med(w, op, rest, env),
+        "xc" => crate::exec_cross::exec_xc(w, op, rest, env),
         "r" => crate::exec_ratio::exec_r(w, op, rest, env),
         "x" => crate::exec_ratio::exec_x(w, op, rest, env),
         "nop" => {}
